@@ -639,6 +639,20 @@ def generate(tier, seed, frames):
                        ("only-last", [s1]), ("first-then-unsegmented", [s0, wire(rp(), inv=90)]),
                        ("first-then-other-id", [s0, mk(1, False, rp_body[4:], inv=91)])):
         yield {"batch": [g(x) for x in seq], "label": {"k": "segments", "case": label}}
+    # a segmented answer and what may come back for it: segment acks with every kind of sequence number / window (in the
+    # window, beyond what was sent, beyond the end of the answer), negative acks, the server's own direction bit, aborts --
+    # then silence.  The transfer has to end and leave nothing behind.
+    big = frames["readPropertyMultiple-big-segmented"][0]
+    inv = big[8]            # BVLL (4) + NPCI (2) + APDU type, max-segments/max-response octets
+    raw = lambda *apdu: frame(bytes([0x01, 0x00]) + bytes(apdu))
+    acks = [(seq, win, nak, srv) for seq in (0, 1, 2, 5, 200, 255) for win in (0, 1, 2, 127, 255) for nak in (0, 1) for srv in (0, 1)]
+    for seq, win, nak, srv in (acks if thorough else [a for a in acks if a[3] == 0 or (a[0] in (0, 200) and a[1] == 2)]):
+        a = raw(0x40 | (nak << 1) | srv, inv, seq, win)
+        yield {"batch": [g(big), g(a)], "label": {"k": "segments", "case": "segack seq=%d win=%d nak=%d srv=%d" % (seq, win, nak, srv)}}
+    for tail in ([raw(0x40, inv, 0, 2), raw(0x40, inv, 2, 2)], [raw(0x40, inv, 0, 2), raw(0x40, inv, 0, 2)],
+                 [raw(0x40, inv, 1, 1), raw(0x42, inv, 0, 1)], [raw(0x40, inv, 0, 127), raw(0x70, inv, 0)],
+                 [raw(0x40, inv ^ 1, 0, 2)], [raw(0x40, inv, 0, 2), big]):
+        yield {"batch": [g(big)] + [g(x) for x in tail], "label": {"k": "segments", "case": "segack-sequence"}}
     # a subscriber that never acknowledges: confirmed notifications queue up behind each other and time out in turn
     sub = frames["subscribeCOV-confirmed"][0]
     again = bytearray(sub)
